@@ -488,3 +488,48 @@ func VerifC05_LinksThroughEntityPersistence() {
 	}
 	env.checkLinks(sp, "C05 after update of the link list")
 }
+
+// VerifC05_LinkOpsInWritingTx: the link operations inside a transaction that
+// has already written to the entity's link bucket (bbolt then iterates live
+// nodes, where removing under a cursor shifts what follows): the emp is linked
+// to four adjacent depts and, in the SAME transaction, SetLinks / RemoveLinks
+// with an arbitrary subset follows. Both sides hold exactly the expected set.
+func VerifC05_LinkOpsInWritingTx() {
+	env := verifC05Env()
+	defer env.close()
+	depts := []string{"d1", "d2", "d3", "d4"}
+	env.createDepts(depts...)
+	env.createEmps("a")
+	keep := make([]bool, len(depts))
+	var list []string
+	for i, d := range depts {
+		keep[i] = verifrt.Bool("in.list")
+		if keep[i] {
+			list = append(list, d)
+		}
+	}
+	op := verifrt.Choose("op", 2) // 0 SetLinks(list), 1 RemoveLinks(list)
+	err := env.update(func(ctx MutateContext) error {
+		if err := env.emp.depts.AddLinks(ctx.Tx(), "a", depts...); err != nil {
+			return err
+		}
+		if op == 0 {
+			return env.emp.depts.SetLinks(ctx.Tx(), "a", list)
+		}
+		return env.emp.depts.RemoveLinks(ctx.Tx(), "a", list...)
+	})
+	verifrt.Assert(err == nil, "C05 link operations in one transaction succeed")
+	env.view(func(tx *bbolt.Tx) {
+		eb := env.emp.GetEntityBucket(tx, []byte("a"))
+		n := 0
+		for i, d := range depts {
+			want := keep[i] == (op == 0)
+			if want {
+				n++
+			}
+			verifrt.Assert(verifRawLinked(eb, vFDepts, d) == want, "C05 after link operations in a writing transaction the emp side holds exactly the expected links")
+			verifrt.Assert(verifRawLinked(env.dept.GetEntityBucket(tx, []byte(d)), vFMembers, "a") == want, "C05 ... and so does the dept side")
+		}
+		verifrt.Assert(verifRawCount(eb, vFDepts) == n, "C05 no stray links after link operations in a writing transaction")
+	})
+}
